@@ -1267,15 +1267,16 @@ func VerifC20bPoolUsers() {
 
 // VerifC20bSeq: consecutive forwarded calls through one client, from an empty pool (2 calls quick,
 // 3 thorough); the leader may have moved before the second call (and is back for the third).
-// Replies are in time or late. The first call is an Execute (the shared retry path), a Backup
-// (the connection ends at EOF) or a RemoveNode (the direct path); the later ones are of any kind.
+// Replies are in time or late. The first and the third call are an Execute (the shared retry
+// path), a Backup (the connection ends at EOF) or a RemoveNode (the direct path); the second is
+// of any kind.
 func VerifC20bSeq() {
 	verifPanicsAreViolations()
 	w, cl := verifNewWorld(verifModeReduced)
 	n := 2 + verifTier()
 	for i := 0; i < n; i++ {
 		kind := 0
-		if i == 0 {
+		if i != 1 {
 			switch verifChoice(verifName("kind", i), 3) {
 			case 1:
 				kind = verifKBackup
